@@ -50,6 +50,12 @@ type (
 		Name string `db:"name"`
 		Age  int64  `db:"age"`
 	}
+	// pointer fields and tags that are not all lower case
+	verifTaggedPtr struct {
+		Name *string `db:"userName"`
+		Age  *int64  `db:"AGE"`
+		Nick string  `db:"nickName"`
+	}
 	verifUntagged struct {
 		Name string
 		Age  int64
@@ -85,7 +91,7 @@ func Verif_C11_rows() {
 	name := verifStringN("name", 1)
 	age, score, extra := verifInt64("age"), verifInt64("score"), verifInt64("extra")
 	strict := verifChoose("strict", 2) == 1
-	switch verifCase(5) {
+	switch verifCase(6) {
 	case 0: // tagged struct: by column name, independent of column order, extra columns ignored
 		orders := [][]string{{"name", "age"}, {"age", "name"}, {"age", "extra", "name"}, {"extra", "name", "age"}}
 		cols := orders[verifChoose("order", 4)]
@@ -124,6 +130,28 @@ func Verif_C11_rows() {
 			verifAssert(err == ErrNotMatchDestination, "strict: fewer columns than (flattened) destination fields is an error, not a partially filled struct")
 			verifReach("strict-embedded")
 		}
+	case 5: // pointer fields and mixed-case tags: by column name, any column order
+		orders := [][]string{{"userName", "AGE", "nickName"}, {"nickName", "AGE", "userName"}, {"AGE", "extra", "nickName", "userName"}}
+		cols := orders[verifChoose("order", 3)]
+		row := make([]verifCell, len(cols))
+		nick := verifStringN("nick", 1)
+		for i, c := range cols {
+			switch c {
+			case "userName":
+				row[i] = verifCell{s: name}
+			case "AGE":
+				row[i] = verifCell{n: age}
+			case "nickName":
+				row[i] = verifCell{s: nick}
+			default:
+				row[i] = verifCell{n: extra}
+			}
+		}
+		var dst verifTaggedPtr
+		err := unmarshalRow(&dst, &verifRows{cols: cols, rows: [][]verifCell{row}}, strict)
+		verifAssert(err == nil, "pointer fields: a result with all (or more) columns maps without error")
+		verifAssert(dst.Name != nil && *dst.Name == name && dst.Age != nil && *dst.Age == age && dst.Nick == nick, "pointer fields and mixed-case tags are filled by column name, independent of column order")
+		verifReach("tagged-ptr")
 	case 4: // empty result / slices
 		var one verifTagged
 		err := unmarshalRow(&one, &verifRows{cols: []string{"name", "age"}}, strict)
